@@ -271,6 +271,10 @@ class Src:
         return x
 
     close_result = None      # what aclose() returns: must be irrelevant to the library
+    falsy = False            # whether the source object itself is falsy: must be irrelevant to the library as well
+
+    def __bool__(self):
+        return not Src.falsy
 
     async def aclose(self):
         self.ctx.ev("close", self.idx)
@@ -391,7 +395,7 @@ def mkfn(ctx, idx, spec, asynchronous=True, suspend=False, flavour=None):
         return None
     if callable(flavour):
         flavour = flavour()
-    if flavour in ("def", "partial", "object", "awaitobj", "awaitclass") and asynchronous:
+    if flavour in ("def", "partial", "object", "awaitobj", "awaitclass", "object-unhashable", "object-equal") and asynchronous:
         async def af(*args):
             ctx.ev("call", idx, args)
             if suspend:
@@ -431,6 +435,30 @@ def mkfn(ctx, idx, spec, asynchronous=True, suspend=False, flavour=None):
             def fo(*args):
                 return _AwObj(af(*args))
             return fo
+
+        if flavour == "object-unhashable":
+            # a callable object of a class with value equality and no hash (like a plain dataclass with __call__)
+            class _CallObjUnhashable:
+                def __call__(self, *args):
+                    return af(*args)
+
+                def __eq__(self, other):
+                    return type(other).__name__ == type(self).__name__
+                __hash__ = None
+            return _CallObjUnhashable()
+
+        if flavour == "object-equal":
+            # distinct callable objects that compare and hash equal to each other (value objects) but do different things
+            class _CallObjEqual:
+                def __call__(self, *args):
+                    return af(*args)
+
+                def __eq__(self, other):
+                    return type(other).__name__ == type(self).__name__
+
+                def __hash__(self):
+                    return 7
+            return _CallObjEqual()
 
         class _CallObj:
             def __call__(self, *args):
